@@ -71,8 +71,19 @@ def run(n, timeout=600):
                     return 'BackupMoves', 'moving file %d aside raised %r' % (i, x), {}
                 if not ok or os.path.exists(fn):
                     return 'BackupMoves', 'file %d was not moved aside' % i, {}
-            if len(log) != n:
-                return 'H:rename-log', 'expected %d renames, saw %d' % (n, len(log)), {}
+            # some files are written anew and moved aside a second time (as by another thread of the build, D33):
+            # the second backup holds contents of the failed build and must not come back
+            again = [i for i in range(n) if i % 7 == 3]
+            for i in again:
+                with open(names[i], 'w') as f:
+                    f.write('interim')
+                try:
+                    if not backups.back_up_and_remove(names[i]):
+                        return 'BackupMoves', 'file %d was not moved aside the second time' % i, {}
+                except Exception as x:      # noqa
+                    return 'BackupMoves', 'moving file %d aside a second time raised %r' % (i, x), {}
+            if len(log) != n + len(again):
+                return 'H:rename-log', 'expected %d renames, saw %d' % (n + len(again), len(log)), {}
             # every second file is rewritten by "the build" before the rollback
             for i, fn in enumerate(names):
                 if i % 2:
